@@ -30,7 +30,19 @@ type kase struct {
 	Name   string `json:"name_quoted"`
 	Script string `json:"script_quoted"`
 	Data   spec   `json:"data"`
+	// Prev, if set, is a call made (and recovered from) immediately before the judged call:
+	// the result of a call must not depend on what earlier calls did, also when they ended in
+	// an error or in a panic raised by a Marshaler of the caller.
+	Prev *kase `json:"prev,omitempty"`
 }
+
+type panicMarsh struct{}
+
+func (panicMarsh) MarshalJSON() ([]byte, error) { panic("marshaler of the caller panics") }
+
+type panicTextm struct{}
+
+func (panicTextm) MarshalText() ([]byte, error) { panic("text marshaler of the caller panics") }
 
 type marsh struct{ s string }
 
@@ -122,6 +134,10 @@ func build(s spec) interface{} {
 		return badMarsh{util.Unq(s.S)}
 	case "errmarsh":
 		return errMarsh{}
+	case "panicmarsh":
+		return panicMarsh{}
+	case "panictextm":
+		return panicTextm{}
 	case "textm":
 		return textm{util.Unq(s.S)}
 	case "raw":
@@ -215,7 +231,7 @@ func genSpec(r *core.Rng, depth int) spec {
 		nums := []string{"1", "-0", "1e400", "1.5e-7", "0x10", "1;alert(1)", "</script>", "NaN", "", "01", "1e", "+1", "١"}
 		return spec{Kind: "number", S: util.Q(nums[r.Intn(len(nums))])}
 	case 17:
-		return spec{Kind: []string{"chan", "func", "nan", "inf", "cycle", "complex", "errmarsh"}[r.Intn(7)]}
+		return spec{Kind: []string{"chan", "func", "nan", "inf", "cycle", "complex", "errmarsh", "panicmarsh", "panictextm"}[r.Intn(9)]}
 	case 18:
 		bads := []string{`</script>`, `"a"];alert(1);[`, `{`, `"x`, `1 2`, ``, `"</script>"`, "\" \"", `{"a":"&"}`, `<!--`}
 		return spec{Kind: "badmarsh", S: util.Q(bads[r.Intn(len(bads))])}
@@ -228,7 +244,7 @@ func init() {
 	core.Register(&core.Monitor{
 		ID:    "C17",
 		Level: "exploration",
-		Rule: "inputs: (name, data, script) with names from a grammar (valid identifiers, digit-first, empty, spaces, '$', non-ASCII letters, newline-terminated) driven through reflect conversion of the constant-only parameters; data from a recursive spec generator: hostile strings (</script>, <!--, U+2028/9, invalid UTF-8), []byte, numbers, nested lists/maps/structs/pointers, json.Marshaler and TextMarshaler returning hostile text (also as map keys), json.RawMessage / json.Number valid and invalid, Marshalers returning invalid JSON, unencodable values (chan, func, NaN, Inf, cycle, complex, failing Marshaler); " +
+		Rule: "inputs: (name, data, script) with names from a grammar (valid identifiers, digit-first, empty, spaces, '$', non-ASCII letters, newline-terminated) driven through reflect conversion of the constant-only parameters; data from a recursive spec generator: hostile strings (</script>, <!--, U+2028/9, invalid UTF-8), []byte, numbers, nested lists/maps/structs/pointers, json.Marshaler and TextMarshaler returning hostile text (also as map keys), json.RawMessage / json.Number valid and invalid, Marshalers returning invalid JSON, unencodable values (chan, func, NaN, Inf, cycle, complex, failing Marshaler) and Marshalers that panic; one case in six is a two-call history: the judged call is preceded by a call that fails or panics in the middle of the encoding (recovered), so that state kept between calls would show; " +
 			"non-trivial = data contains a hostile string or an unencodable value; distinct by (name, data spec, script)",
 		Assumptions: []string{"oracle: encoding/json used in an independent mode (Encoder with SetEscapeHTML(false), Decoder with UseNumber) for the round trip; frame split by known lengths"},
 		Run:         run,
@@ -278,11 +294,27 @@ func decode(j []byte) (interface{}, error) {
 }
 
 func check(c *core.Ctx, k kase) {
+	check1(c, k)
+}
+
+// check1 reports whether the judged call ended in a panic or an error.
+func check1(c *core.Ctx, k kase) (failed bool) {
 	c.Eval(1)
 	name, script := util.Unq(k.Name), util.Unq(k.Script)
 	data := build(k.Data)
 	ks := util.JSON(k.Data)
-	c.DistinctS(name, ks, script)
+	if k.Prev != nil {
+		c.Count("calls_preceded_by_a_failing_or_panicking_call", 1)
+		c.DistinctS(name, ks, script, util.JSON(k.Prev))
+		pp := core.Recover(func() {
+			util.CallConst(safehtml.ScriptFromDataAndConstant, util.Unq(k.Prev.Name), build(k.Prev.Data), util.Unq(k.Prev.Script))
+		})
+		if pp != nil {
+			c.Count("preceding_call_panicked", 1)
+		}
+	} else {
+		c.DistinctS(name, ks, script)
+	}
 	var res safehtml.Script
 	var err error
 	p := core.Recover(func() {
@@ -293,7 +325,12 @@ func check(c *core.Ctx, k kase) {
 		}
 	})
 	if p != nil {
+		failed = true
 		if k.Data.Kind == "cycle" || strings.Contains(ks, `"cycle"`) {
+			return
+		}
+		if strings.Contains(ks, `"panicmarsh"`) || strings.Contains(ks, `"panictextm"`) {
+			c.Count("panics_raised_by_the_callers_marshaler", 1)
 			return
 		}
 		c.Violation(k, "ScriptFromDataAndConstant panicked: %v", p)
@@ -308,6 +345,7 @@ func check(c *core.Ctx, k kase) {
 		refErr = fmt.Errorf("panic: %v", pp)
 	}
 	if err != nil {
+		failed = true
 		c.Count("errors", 1)
 		if res.String() != "" {
 			c.Violation(k, "error %q but non-zero Script %+q", err, res.String())
@@ -351,6 +389,7 @@ func check(c *core.Ctx, k kase) {
 	if !reflect.DeepEqual(got, want) {
 		c.Violation(k, "embedded literal %+q decodes to %#v, the data's JSON value is %#v", j, got, want)
 	}
+	return
 }
 
 func run(c *core.Ctx) {
@@ -359,6 +398,7 @@ func run(c *core.Ctx) {
 		"\u212aey", "\u017ftate", "a\u212a", "x\u017f", "\u212a\u212a", "ab\u0131", "d\u0130ta", "a\ufb01", "a\u0300", "x\u2028y", "$\u00e9", "_\u03a9"}
 	scripts := []string{"", "f(x);", "alert(1)", "// c\nrun()", "\"</script>\"", ";\n", "var y = 2;\n"}
 	n := c.N(600000, 6000000) / c.NShards
+	var lastFailed *kase
 	for i := 0; i < n; i++ {
 		name := names[r.Intn(len(names))]
 		if r.Intn(3) == 0 {
@@ -368,8 +408,26 @@ func run(c *core.Ctx) {
 			name = gen.Soup(r, []string{"a", "Z", "0", "_", "$", " ", "-", "\u00e9", "\n", "\u212a", "\u017f", "k", "s", "\u0131", "\uff41"}, r.Intn(5))
 		}
 		k := kase{Name: util.Q(name), Script: util.Q(scripts[r.Intn(len(scripts))]), Data: genSpec(r, 0)}
+		if r.Intn(6) == 0 {
+			// a two-call history: first a call that fails or panics in the middle of the encoding
+			bad := []spec{{Kind: "panicmarsh"}, {Kind: "panictextm"}, {Kind: "errmarsh"}, {Kind: "chan"}, {Kind: "nan"}, {Kind: "badmarsh", S: util.Q("{")},
+				{Kind: "list", L: []spec{{Kind: "str", S: util.Q("</script>")}, {Kind: "panicmarsh"}}},
+				{Kind: "map", Keys: []string{util.Q("a"), util.Q("b")}, L: []spec{{Kind: "int", N: 1}, {Kind: "panictextm"}}},
+				{Kind: "struct", L: []spec{{Kind: "str", S: util.Q("x")}, {Kind: "errmarsh"}, {Kind: "nil"}}}}
+			pn := []string{"secretCfg", "ab", "1a", ""}[r.Intn(4)]
+			k.Prev = &kase{Name: util.Q(pn), Script: util.Q(scripts[r.Intn(len(scripts))]), Data: bad[r.Intn(len(bad))]}
+		}
+		if k.Prev == nil && lastFailed != nil {
+			// every case is self-contained: the failing call that preceded it is part of it
+			k.Prev = lastFailed
+		}
 		c.Journal(util.JSON(k))
-		check(c, k)
+		lastFailed = nil
+		if check1(c, k) {
+			kk := k
+			kk.Prev = nil
+			lastFailed = &kk
+		}
 		if i < 2 {
 			c.Sample(k)
 		}
